@@ -103,6 +103,13 @@ class RT:
                         a.annotation = None
                     node.decorator_list = []
                     keep.append(node)
+                elif isinstance(node, ast.FunctionDef) and node.decorator_list and isinstance(node.decorator_list[0], ast.Name) and node.decorator_list[0].id == "spec_abstract":
+                    node.returns = None
+                    for a in node.args.args:
+                        a.annotation = None
+                    node.decorator_list = []
+                    node.body = [ast.Raise(exc=ast.Call(func=ast.Name(id="NotImplementedError", ctx=ast.Load()), args=[], keywords=[]), cause=None)]
+                    keep.append(node)
             tree.body = keep
             tree = _Rewrite().visit(tree)
             ast.fix_missing_locations(tree)
